@@ -26,7 +26,7 @@ use std::{
     sync::atomic::{AtomicU64, Ordering},
 };
 
-use parking_lot::Mutex;
+use parking_lot::{Mutex, RwLock};
 use serde::{Deserialize, Serialize};
 use tracing::instrument;
 
@@ -92,6 +92,18 @@ pub struct SlabRouter {
     wal: Option<Mutex<TensorWal>>,
     /// Checkpoint counter for unique IDs.
     checkpoint_counter: AtomicU64,
+    /// Striped locks making embedding-class operations atomic per key. Such a key
+    /// lives in three places (entity index, embedding slab, metadata slab); without
+    /// mutual exclusion a reader can observe one write's vector with another
+    /// write's fields.
+    emb_key_locks: Vec<RwLock<()>>,
+}
+
+/// Number of stripes for the embedding-class key locks.
+const EMB_KEY_LOCK_STRIPES: usize = 64;
+
+fn new_emb_key_locks() -> Vec<RwLock<()>> {
+    (0..EMB_KEY_LOCK_STRIPES).map(|_| RwLock::new(())).collect()
 }
 
 impl SlabRouter {
@@ -126,6 +138,7 @@ impl SlabRouter {
             ops_count: AtomicU64::new(0),
             wal: None,
             checkpoint_counter: AtomicU64::new(0),
+            emb_key_locks: new_emb_key_locks(),
         }
     }
 
@@ -160,6 +173,7 @@ impl SlabRouter {
             ops_count: AtomicU64::new(0),
             wal: Some(Mutex::new(wal)),
             checkpoint_counter: AtomicU64::new(0),
+            emb_key_locks: new_emb_key_locks(),
         })
     }
 
@@ -174,6 +188,7 @@ impl SlabRouter {
 
         match Self::classify_key(key) {
             KeyClass::Embedding => {
+                let _guard = self.emb_key_lock(key).write();
                 let entity_id = self.index.get_or_create(key);
                 // Extract vector from TensorValue if present
                 if let Some(TensorValue::Vector(vec)) = value.get("_embedding") {
@@ -221,6 +236,7 @@ impl SlabRouter {
 
         match Self::classify_key(key) {
             KeyClass::Embedding => {
+                let _guard = self.emb_key_lock(key).read();
                 if let Some(entity_id) = self.index.get(key) {
                     if let Some(vector) = self.embeddings.get(entity_id) {
                         #[cfg(neumann_verif)]
@@ -253,6 +269,12 @@ impl SlabRouter {
     pub fn delete(&self, key: &str) -> Result<(), SlabRouterError> {
         self.ops_count.fetch_add(1, Ordering::Relaxed);
 
+        let _guard = if Self::classify_key(key) == KeyClass::Embedding {
+            Some(self.emb_key_lock(key).write())
+        } else {
+            None
+        };
+
         // Check if key exists first
         if !self.exists(key) {
             return Err(SlabRouterError::NotFound(key.to_string()));
@@ -278,6 +300,16 @@ impl SlabRouter {
                 Ok(())
             },
         }
+    }
+
+    /// Stripe of the embedding-class key locks responsible for `key`.
+    fn emb_key_lock(&self, key: &str) -> &RwLock<()> {
+        use std::hash::{Hash, Hasher};
+        let mut hasher = std::collections::hash_map::DefaultHasher::new();
+        key.hash(&mut hasher);
+        #[allow(clippy::cast_possible_truncation)]
+        let idx = (hasher.finish() as usize) % self.emb_key_locks.len();
+        &self.emb_key_locks[idx]
     }
 
     /// Check if a key exists.
@@ -390,6 +422,7 @@ impl SlabRouter {
             ops_count: AtomicU64::new(0),
             wal: None,
             checkpoint_counter: AtomicU64::new(0),
+            emb_key_locks: new_emb_key_locks(),
         }
     }
 
@@ -415,6 +448,7 @@ impl SlabRouter {
             ops_count: AtomicU64::new(0),
             wal: Some(Mutex::new(wal)),
             checkpoint_counter: AtomicU64::new(0),
+            emb_key_locks: new_emb_key_locks(),
         })
     }
 
